@@ -234,6 +234,8 @@ def run(ctx):
     ctx.counted('arguments that cannot change the answer (inert exclude=, root spelling, NOUNIQUE)', nin_, nin_ // 2, [{'pattern': '**', 'exclude': 'zz-no-such-name*'}])
     from props import fringe
     fringe.odd_symlinks(ctx)
+    from props import glue
+    glue.lazy_walk_tree_change(ctx)
     return ctx.finish(RULE)
 
 
